@@ -67,6 +67,8 @@ type Exec struct {
 
 	hashes   []*HashApp
 	groupIv  map[string]*smt.Term
+	groupRev map[int]*GroupFacet // value term of a group element -> its facet
+	primeTerms map[int]bool       // terms assumed prime (assumePrime)
 	modKinds map[int]*ModInfo
 	atoms    map[string]bool
 	inInit   bool
